@@ -54,9 +54,9 @@ RULE = ("file: exhaustive entry lists over the alphabet {a,+,#,LF,CR,U+2028,NUL,
         "which the consumer takes at least one step")
 EXHAUSTIVE = True
 EXHAUSTIVE_SCOPE = {
-    "quick": "file: 1 entry len<=2 (len 3 sampled), 2 entries len<=1, raw files len<=2 over 9 byte symbols (len 3 "
-             "sampled), every truncation offset of each; th: ALL complete loader/consumer interleavings without "
-             "appends for stores of 0, 1 and 2 items; all schedules with one concurrent append up to depth 7-8",
+    "quick": "file: 1 entry len<=3, 2 entries len<=1, raw files len<=3 over 9 byte symbols, every truncation "
+             "offset of each; th: ALL complete loader/consumer interleavings without appends for stores of 0, 1 "
+             "and 2 items; all schedules with one concurrent append up to depth 8",
     "thorough": "file: 1 entry len<=4, 2 entries len<=2, 3 entries len<=1, raw files len<=4 over 9 byte symbols, "
                 "every truncation offset of each; th: ALL complete interleavings without appends for stores of "
                 "0..3 items (with a second load() for 0-1 items); all schedules up to depth 12 with one "
@@ -187,10 +187,11 @@ def file_impl(case):
             elif k == "truncall":
                 data = read_bytes(path)
                 res = []
-                for n in range(len(data) + 1):
-                    write_bytes(tpath, data[:n])
+                write_bytes(tpath, data)
+                for n in range(len(data), -1, -1):
+                    os.truncate(tpath, n)
                     res.append(safe_fresh_load(tpath))
-                out.append(" | ".join(res))
+                out.append(" | ".join(res[::-1]))
             elif k == "cutb":
                 data = read_bytes(path)
                 data = data[:max(0, len(data) - op[1])]
@@ -253,6 +254,7 @@ class Sched:
         self.grant = {}
         self.finished = set()
         self.free = False
+        self.set_pauses = False  # also stop the loader after every single event.set()
 
     def pause(self, role, point):
         with self.cv:
@@ -300,15 +302,16 @@ class GLock:
         self.l = threading.Lock()
 
     def __enter__(self):
-        if _role() == "C":
-            self.s.pause("C", "lock")
+        r = _role()
+        if r is not None and r.startswith("C"):
+            self.s.pause(r, "lock")
         self.l.acquire()
         return self
 
     def __exit__(self, *a):
         self.l.release()
         r = _role()
-        if r in ("L", "A"):
+        if r is not None:
             self.s.pause(r, "unlocked")
         return False
 
@@ -326,6 +329,8 @@ class GEvent:
 
     def set(self):
         self.e.set()
+        if self.s.set_pauses and _role() == "L":
+            self.s.pause("L", "set")
 
     def clear(self):
         self.e.clear()
@@ -334,9 +339,10 @@ class GEvent:
         return self.e.is_set()
 
     def wait(self, timeout=None):
-        if _role() != "C" or self.s.free:
+        r = _role()
+        if r is None or not r.startswith("C") or self.s.free:
             return self.e.wait(timeout)
-        self.s.pause("C", "wait")
+        self.s.pause(r, "wait")
         if self.s.free:
             return self.e.wait(timeout)
         return self.e.is_set()
@@ -455,6 +461,10 @@ class ThRun:
             if at.get("C") == "lock":
                 s.release("C")
                 s.wait_quiet("C")
+        elif k == "cyield":
+            if at.get("C") == "unlocked":
+                s.release("C")
+                s.wait_quiet("C")
                 if "C" in s.finished:
                     self.cthread.join(10)
         elif k in ("lreset", "lsnap", "lappend", "lnotify", "ldone", "lfinal"):
@@ -513,8 +523,8 @@ class ThRun:
         elif "C" in s.finished:
             cpc = "done"
         else:
-            cpc = {"wait": "wait", "lock": "read"}[s.at.get("C")]
-        if cpc in ("wait", "read"):
+            cpc = {"wait": "wait", "lock": "read", "unlocked": "yield"}[s.at.get("C")]
+        if cpc in ("wait", "read", "yield"):
             evs = self.th._string_load_events
             ev = "1" if (len(evs) == 1 and evs[0].is_set()) else ("0" if len(evs) == 1 else "?%d" % len(evs))
         else:
@@ -545,6 +555,100 @@ class ThRun:
                 for ev in list(self.th._string_load_events):
                     ev.set()
         H.threading = self.real_threading
+
+
+class ThRun2:
+    """several simultaneous load() consumers (oracle only, not modelled): every op advances one thread
+    to its next synchronisation point; the loader additionally stops after every single event.set()"""
+
+    def __init__(self, old, pre):
+        self.s = Sched()
+        self.s.set_pauses = True
+        self.real_threading = H.threading
+        H.threading = make_shim(self.s)
+        self.inner = GatedHistory(self.s, old)
+        self.th = ThreadedHistory(self.inner)
+        for p in pre:
+            self.th.append_string(p)
+        self.outs = {}
+        self.cthreads = {}
+        self.threads = []
+
+    def _consume(self, role, out):
+        loop = asyncio.new_event_loop()
+
+        def init():
+            _tls.role = role
+
+        ex = ThreadPoolExecutor(max_workers=1, initializer=init)
+        loop.set_default_executor(ex)
+
+        async def go():
+            async for item in self.th.load():
+                out.append(item)
+
+        try:
+            loop.run_until_complete(go())
+        finally:
+            self.s.finish(role)
+            ex.shutdown(wait=False)
+            loop.close()
+
+    def step(self, op):
+        s = self.s
+        if op[0] == "start":
+            role = "C%d" % op[1]
+            if role in self.cthreads:
+                return
+            self.outs[role] = []
+            t = threading.Thread(target=self._consume, args=(role, self.outs[role]), daemon=True)
+            self.cthreads[role] = t
+            self.threads.append(t)
+            t.start()
+            s.wait_quiet(role)
+            s.wait_quiet("L")
+        elif op[0] == "adv":
+            role = op[1]
+            if role in s.at:
+                s.release(role)
+                s.wait_quiet(role)
+        else:
+            raise ValueError(op)
+
+    close = ThRun.close
+
+
+def th2_oracle(case):
+    global _TH_HANG
+    v = []
+    real_threading = H.threading
+    r = None
+    try:
+        r = ThRun2(case["old"], case["pre"])
+        for op in case["ops"]:
+            r.step(op)
+        # from here on: real timing; every load() call must complete with the inline sequence
+        exp = (list(case["old"]) + list(case["pre"]))[::-1]
+        r.s.set_free()
+        for role, t in r.cthreads.items():
+            if _TH_HANG:
+                break
+            t.join(6)
+            if t.is_alive():
+                _TH_HANG = True
+                v.append({"signature": "ThreadedHistory.load | several simultaneous load() calls: never completes",
+                          "msg": f"old={case['old']!r} pre={case['pre']!r} after schedule {case['ops']!r} the "
+                                 f"threads ran freely for 6 s and load() call {role} did not finish "
+                                 f"(yielded {r.outs[role]!r}); events still registered: "
+                                 f"{len(r.th._string_load_events)}"})
+            elif r.outs[role] != exp:
+                v.append({"signature": "ThreadedHistory.load | several simultaneous load() calls: wrong items",
+                          "msg": f"schedule {case['ops']!r}: {role} yielded {r.outs[role]!r}, inline {exp!r}"})
+    finally:
+        if r is not None:
+            r.close()
+        H.threading = real_threading
+    return v
 
 
 def th_impl(case, observer=None, finale=None):
@@ -587,6 +691,8 @@ def model_lines(case):
         return codec_model_lines(case)
     if k == "th":
         return th_model_lines(case)
+    if k == "th2":
+        return []          # not modelled: oracle only
     raise ValueError(k)
 
 
@@ -598,6 +704,8 @@ def impl_lines(case):
         return codec_impl(case)
     if k == "th":
         return th_impl(case)
+    if k == "th2":
+        return []
     raise ValueError(k)
 
 
@@ -714,8 +822,9 @@ def file_oracle(case):
                     bad("ThreadedHistory.load", "raises", f"{type(e).__name__}: {e}")
         elif k == "truncall":
             data = read_bytes(path)
-            for n in range(len(data) + 1):
-                write_bytes(tpath, data[:n])
+            write_bytes(tpath, data)
+            for n in range(len(data), -1, -1):
+                os.truncate(tpath, n)
                 check_load(tpath, _cut_segments(segs, n), f"file cut at byte {n} of {len(data)}")
         elif k == "cutb":
             data = read_bytes(path)
@@ -813,6 +922,8 @@ def oracle(case):
         v = file_oracle(case)
     elif k == "th":
         v = th_oracle(case)
+    elif k == "th2":
+        v = th2_oracle(case)
     else:
         v = []
         for s in case["strs"]:
@@ -917,7 +1028,7 @@ def codec_cases(tier, rng):
 class Ctl:
     """control skeleton used only to enumerate schedules whose steps are enabled"""
 
-    __slots__ = ("l", "rem", "c", "ev", "pend", "loaded", "nstore", "appends")
+    __slots__ = ("l", "rem", "c", "ev", "pend", "loaded", "nstore", "appends", "sawdone")
 
     def __init__(self, nstore):
         self.l = "-"
@@ -928,6 +1039,7 @@ class Ctl:
         self.loaded = False
         self.nstore = nstore
         self.appends = 0
+        self.sawdone = False
 
     def copy(self):
         o = Ctl(self.nstore)
@@ -943,6 +1055,8 @@ class Ctl:
             e.append("cwait")
         if self.c == "read":
             e.append("cread")
+        if self.c == "yield":
+            e.append("cyield")
         if self.l == "start":
             e.append("lreset")
         if self.l == "called":
@@ -968,7 +1082,10 @@ class Ctl:
             self.c = "read"
         elif k == "cread":
             self.ev = False
-            self.c = "done" if self.loaded else "wait"
+            self.sawdone = self.loaded
+            self.c = "yield"
+        elif k == "cyield":
+            self.c = "done" if self.sawdone else "wait"
         elif k == "lreset":
             self.l = "called"
         elif k == "lsnap":
@@ -1025,7 +1142,7 @@ def th_exhaustive(tier):
     # (old, pre, depth, max concurrent appends, allow a second load())
     if tier == "quick":
         plan = [([], [], 10, 0, False), ([], ["p1"], 12, 0, False), (["o1", "o2"], [], 14, 0, False),
-                (["o1", "o2"], [], 7, 1, True), ([], ["p1"], 8, 1, True)]
+                (["o1", "o2"], [], 8, 1, True), ([], ["p1"], 8, 1, True)]
     else:
         plan = [([], [], 10, 0, True), ([], ["p1"], 14, 0, True), (["o1", "o2"], [], 14, 0, False),
                 (["o1", "o2"], ["p1"], 18, 0, False),
@@ -1049,7 +1166,7 @@ def rand_th_case(rng, with_appends):
             break
         # occasionally try a disabled step too (must be a no-op on both sides)
         if rng.random() < 0.05:
-            k = rng.choice(["cwait", "cread", "lreset", "lsnap", "lappend", "lnotify", "ldone", "lfinal", "astore"])
+            k = rng.choice(["cwait", "cread", "cyield", "lreset", "lsnap", "lappend", "lnotify", "ldone", "lfinal", "astore"])
             if k not in en:
                 sched.append(k)
                 continue
@@ -1067,11 +1184,8 @@ def cases(tier, rng):
     # --- codec
     yield from codec_cases(tier, rng)
     # --- files, exhaustive small scope
-    for s in strings_upto(ALPHA, 2 if quick else 4):
+    for s in strings_upto(ALPHA, 3 if quick else 4):
         yield entries_case([s])
-    if quick:
-        for _ in range(120):
-            yield entries_case(["".join(rng.choice(ALPHA) for _ in range(3))])
     pair = list(strings_upto(ALPHA, 1 if quick else 2))
     for a in pair:
         for b in pair:
@@ -1091,18 +1205,15 @@ def cases(tier, rng):
                                            ["app", 2, "T", "+z\n#"], ["fresh"], ["truncall"],
                                            ["load", 0], ["get", 0], ["get", 1], ["get", 2]]}
     # raw garbage files
-    for k in range(0, (2 if quick else 4) + 1):
+    for k in range(0, (3 if quick else 4) + 1):
         for tup in itertools.product(RAW_ALPHA, repeat=k):
-            yield {"kind": "file", "ops": [["raw", list(tup)], ["fresh"]]}
-    if quick:
-        for _ in range(150):
-            yield {"kind": "file", "ops": [["raw", [rng.choice(RAW_ALPHA) for _ in range(3)]], ["fresh"]]}
+            yield {"kind": "file", "ops": [["raw", list(tup)], ["fresh"], ["truncall"]]}
     # --- threaded, exhaustive schedules
     yield from th_exhaustive(tier)
     # --- random
-    for _ in range(250 if quick else 12000):
+    for _ in range(600 if quick else 12000):
         yield rand_file_case(rng)
-    for _ in range(150 if quick else 6000):
+    for _ in range(300 if quick else 6000):
         yield rand_raw_case(rng)
     for _ in range(300 if quick else 8000):
         yield rand_th_case(rng, with_appends=rng.random() < 0.6)
@@ -1113,7 +1224,7 @@ def nontrivial(case):
     if k == "file":
         return any((op[0] == "app" and op[3]) or (op[0] == "raw" and op[1]) for op in case["ops"])
     if k == "th":
-        return any(op[0] in ("cwait", "cread") for op in case["ops"])
+        return any(op[0] in ("cwait", "cread", "cyield") for op in case["ops"])
     return True
 
 
